@@ -107,9 +107,11 @@ static std::string run_history(const std::string &line)
                 while (!ref_is_prime(expect))
                     expect++;
                 if (limit > 0 && expect > limit) {
-                    if (p != limit + 1)
+                    // callers loop `while ((p = it.next_prime()) <= limit)`: any value above
+                    // the limit ends the sequence
+                    if (p <= limit)
                         oracle << " iterator(" << limit << ") after " << prev << " gave " << p
-                               << " instead of limit+1";
+                               << " although the next prime " << expect << " exceeds the limit";
                     itstate[id].first = 0xffffffffu;
                 } else {
                     if (p != expect)
